@@ -173,7 +173,8 @@ def guards(body, bb, cd=None, skip_try=True, _seen=None):
 def dom_guards(body, bb, cd=None, skip_try=True):
     """The guards of bb that hold on *every* execution reaching bb: branch edges (a -> s) whose target s
     dominates bb.  (`guards` also returns conditions inherited around loop back edges, in both polarities.)"""
-    return [(a, s, c) for (a, s, c) in guards(body, bb, cd, skip_try) if body.dominates(s, bb)]
+    # (a back edge a -> s with s dominating a is excluded: its condition only held on a previous iteration)
+    return [(a, s, c) for (a, s, c) in guards(body, bb, cd, skip_try) if body.dominates(s, bb) and not body.dominates(s, a)]
 
 
 def rpo(body):
